@@ -29,6 +29,15 @@ import (
 // assigned in the loop body, no calls): under the property's distinct-keys precondition such
 // a guard fires at most once (this is how RemoveTag differs from RemoveTags, whose guard
 // compares with the variable of an inner loop).
+//
+// Index loops. `for …; i < len(S); i++` (any comparison of a variable with len(S), the variable
+// incremented in the post statement or the body) re-reads len(S), so there is no stale tail, but
+// after `S = append(S[:i], S[i+1:]...)` position i holds the next element: a path from the
+// shrink that reaches an increment of i skips it (the second of two adjacent matches survives).
+// Obligation per shrink in such a loop: on the control-flow graph every path from the shrink
+// decrements i (i--, i -= c, i = i - c) before the next increment, or comes back to the loop
+// condition without incrementing (a loop without post statement that only increments on the
+// keep branch), or leaves the loop; or guard (b) applies.
 // Props C39 only for methods of b6.Tags; the same shape elsewhere is reported as info.
 func init() {
 	register(&Rule{
@@ -39,7 +48,8 @@ func init() {
 		// a second instance today and stays one if it is repaired by collect-then-filter).
 		Floor: 1,
 		Doc: "a range over a slice whose body re-assigns that slice to a shorter one built from the loop index either leaves the loop " +
-			"right after the shrink or guards it by comparing the element with a loop-invariant value only",
+			"right after the shrink or guards it by comparing the element with a loop-invariant value only; in a three-clause index loop " +
+			"every path from such a shrink steps the index back, re-tests the same position or leaves the loop (or the same guard applies)",
 		Run: runShrinkInRange,
 	})
 }
@@ -53,7 +63,7 @@ func fIsSliceType(t types.Type) bool {
 }
 
 // fShrinks finds the assignments inside body that shorten the ranged operand using the key.
-func fShrinks(info *types.Info, rs *ast.RangeStmt, keyDeps map[types.Object]bool) []*ast.AssignStmt {
+func fShrinks(info *types.Info, rs *fShrinkLoop, keyDeps map[types.Object]bool) []*ast.AssignStmt {
 	var out []*ast.AssignStmt
 	inspectShallow(rs.Body, func(n ast.Node) bool {
 		as, ok := n.(*ast.AssignStmt)
@@ -167,7 +177,7 @@ func (gd *fGuards) eq(l, r ast.Expr) bool {
 // the shrink. Two recognisers: syntax (enclosing if-then / switch case) and the CFG (the
 // shrink is unreachable from the start of the body once the "equal" edge of the comparison
 // is removed — this covers `if elem != v { continue }` before the shrink).
-func fInvariantGuard(info *types.Info, g *cfg.CFG, rs *ast.RangeStmt, as *ast.AssignStmt, loc nodeLoc, elemDeps map[types.Object]bool) (string, bool) {
+func fInvariantGuard(info *types.Info, g *cfg.CFG, rs *fShrinkLoop, as *ast.AssignStmt, loc nodeLoc, elemDeps map[types.Object]bool) (string, bool) {
 	chain := enclosing(rs.Body, as)
 	gd := &fGuards{info, fAssignedIn(info, rs.Body), elemDeps}
 	for _, n := range chain[1:] {
@@ -226,7 +236,7 @@ func fInvariantGuard(info *types.Info, g *cfg.CFG, rs *ast.RangeStmt, as *ast.As
 	// CFG recogniser
 	var body *cfg.Block
 	for _, b := range g.Blocks {
-		if b.Kind == cfg.KindRangeBody && b.Stmt == ast.Stmt(rs) {
+		if (b.Kind == cfg.KindRangeBody || b.Kind == cfg.KindForBody) && b.Stmt == rs.Stmt {
 			body = b
 		}
 	}
@@ -255,7 +265,7 @@ func fInvariantGuard(info *types.Info, g *cfg.CFG, rs *ast.RangeStmt, as *ast.As
 				x := work[0]
 				work = work[1:]
 				for _, s := range x.Succs {
-					if x == b && s == eqEdge || seen[s] || s.Kind == cfg.KindRangeLoop && s.Stmt == ast.Stmt(rs) {
+					if x == b && s == eqEdge || seen[s] || rs.isHead(s) {
 						continue
 					}
 					seen[s] = true
@@ -271,6 +281,172 @@ func fInvariantGuard(info *types.Info, g *cfg.CFG, rs *ast.RangeStmt, as *ast.As
 		}
 	}
 	return "no guard compares the element with a value that is invariant in the loop", false
+}
+
+// fShrinkLoop describes a loop that walks the slice X by an index: a range statement with a
+// key, or `for …; i < len(X); …` with an increment of i.
+type fShrinkLoop struct {
+	Stmt ast.Stmt
+	Body *ast.BlockStmt
+	X    ast.Expr
+	rs   *ast.RangeStmt // nil for a three-clause loop
+	idx  types.Object   // range key / index variable
+	val  types.Object   // range value variable, or nil
+}
+
+func (l *fShrinkLoop) isHead(b *cfg.Block) bool {
+	return b.Stmt == l.Stmt && (b.Kind == cfg.KindRangeLoop || b.Kind == cfg.KindForLoop || b.Kind == cfg.KindForPost)
+}
+
+func (l *fShrinkLoop) inLoop(b *cfg.Block) bool {
+	if b.Stmt == nil {
+		return false
+	}
+	if b.Stmt == l.Stmt {
+		return b.Kind == cfg.KindRangeBody || b.Kind == cfg.KindForBody || l.isHead(b)
+	}
+	return l.Body.Pos() <= b.Stmt.Pos() && b.Stmt.End() <= l.Body.End()
+}
+
+// fIndexLoop recognises `for …; i < len(X); …` (also len(X) > i, i != len(X), i <= len(X)-1) over a
+// slice-typed X whose index variable is incremented in the post statement or the body.
+func fIndexLoop(info *types.Info, fs *ast.ForStmt) *fShrinkLoop {
+	be, ok := ast.Unparen(fs.Cond).(*ast.BinaryExpr)
+	if !ok {
+		return nil
+	}
+	switch be.Op {
+	case token.LSS, token.LEQ, token.GTR, token.GEQ, token.NEQ:
+	default:
+		return nil
+	}
+	var idx types.Object
+	var x ast.Expr
+	for _, pr := range [][2]ast.Expr{{be.X, be.Y}, {be.Y, be.X}} {
+		id := fIdentOf(pr[0])
+		if id == nil {
+			continue
+		}
+		ast.Inspect(pr[1], func(n ast.Node) bool {
+			if call, ok := n.(*ast.CallExpr); ok && isBuiltin(info, call, "len") && len(call.Args) == 1 && fIsSliceType(info.TypeOf(call.Args[0])) {
+				x = call.Args[0]
+			}
+			return x == nil
+		})
+		if x != nil {
+			if v, ok := info.ObjectOf(id).(*types.Var); ok {
+				idx = v
+			}
+			break
+		}
+	}
+	if idx == nil || x == nil {
+		return nil
+	}
+	incremented := false
+	ast.Inspect(fs, func(n ast.Node) bool {
+		if st, ok := n.(ast.Stmt); ok && fStepOf(info, st, idx) > 0 {
+			incremented = true
+		}
+		return !incremented
+	})
+	if !incremented {
+		return nil
+	}
+	return &fShrinkLoop{Stmt: fs, Body: fs.Body, X: x, idx: idx}
+}
+
+// fStepOf: +1 when the statement increments the variable (i++, i += c, i = i + c), -1 when it
+// decrements it (i--, i -= c, i = i - c), 0 otherwise.
+func fStepOf(info *types.Info, st ast.Stmt, v types.Object) int {
+	isV := func(e ast.Expr) bool {
+		id := fIdentOf(e)
+		return id != nil && info.ObjectOf(id) == v
+	}
+	switch x := st.(type) {
+	case *ast.IncDecStmt:
+		if isV(x.X) {
+			if x.Tok == token.INC {
+				return 1
+			}
+			return -1
+		}
+	case *ast.AssignStmt:
+		if len(x.Lhs) != 1 || len(x.Rhs) != 1 || !isV(x.Lhs[0]) {
+			return 0
+		}
+		switch x.Tok {
+		case token.ADD_ASSIGN:
+			return 1
+		case token.SUB_ASSIGN:
+			return -1
+		case token.ASSIGN:
+			if be, ok := ast.Unparen(x.Rhs[0]).(*ast.BinaryExpr); ok && isV(be.X) {
+				switch be.Op {
+				case token.ADD:
+					return 1
+				case token.SUB:
+					return -1
+				}
+			}
+		}
+	}
+	return 0
+}
+
+// fStepsPastSlid searches the CFG from the node after the shrink: a path that reaches an
+// increment of the index (the post statement) without first decrementing it, re-testing the
+// loop condition or leaving the loop steps over the element that slid into the freed position.
+func fStepsPastSlid(c *Ctx, info *types.Info, g *cfg.CFG, l *fShrinkLoop, from nodeLoc) []string {
+	type item struct {
+		b     *cfg.Block
+		i     int
+		trail []string
+	}
+	seen := map[*cfg.Block]bool{}
+	work := []item{{from.b, from.i + 1, nil}}
+	for len(work) > 0 {
+		it := work[0]
+		work = work[1:]
+		stopped := false
+		for i := it.i; i < len(it.b.Nodes); i++ {
+			st, ok := it.b.Nodes[i].(ast.Stmt)
+			if !ok {
+				continue
+			}
+			switch fStepOf(info, st, l.idx) {
+			case 1:
+				txt := nodeText(c.Fset, st)
+				if id, ok := st.(*ast.IncDecStmt); ok {
+					txt = types.ExprString(id.X) + id.Tok.String()
+				}
+				return append(append([]string(nil), it.trail...), fmt.Sprintf("reaches %s %s: the index moves on although position %s now holds the next element", c.Position(st.Pos()), txt, l.idx.Name()))
+			case -1:
+				stopped = true
+			}
+			if stopped {
+				break
+			}
+		}
+		if stopped {
+			continue
+		}
+		for _, s := range it.b.Succs {
+			if seen[s] || !l.inLoop(s) {
+				continue
+			}
+			if s.Kind == cfg.KindForLoop && s.Stmt == l.Stmt {
+				continue // the condition is tested again for the same position
+			}
+			seen[s] = true
+			t := it.trail
+			if len(s.Nodes) > 0 {
+				t = append(append([]string(nil), it.trail...), fmt.Sprintf("%s (%s)", c.Position(s.Nodes[0].Pos()), s.Kind))
+			}
+			work = append(work, item{s, 0, t})
+		}
+	}
+	return nil
 }
 
 func runShrinkInRange(c *Ctx) []Obligation {
@@ -300,25 +476,31 @@ func runShrinkInRange(c *Ctx) []Obligation {
 				return true
 			})
 			for _, u := range units {
-				var ranges []*ast.RangeStmt
+				var loops []*fShrinkLoop
 				inspectShallow(u.body, func(n ast.Node) bool {
-					if rs, ok := n.(*ast.RangeStmt); ok && fIsSliceType(info.TypeOf(rs.X)) {
-						ranges = append(ranges, rs)
+					switch x := n.(type) {
+					case *ast.RangeStmt:
+						keyID, _ := x.Key.(*ast.Ident)
+						if !fIsSliceType(info.TypeOf(x.X)) || keyID == nil || keyID.Name == "_" {
+							return true
+						}
+						l := &fShrinkLoop{Stmt: x, Body: x.Body, X: x.X, rs: x, idx: info.ObjectOf(keyID)}
+						if v, ok := x.Value.(*ast.Ident); ok && v.Name != "_" {
+							l.val = info.ObjectOf(v)
+						}
+						loops = append(loops, l)
+					case *ast.ForStmt:
+						if x.Cond != nil {
+							if l := fIndexLoop(info, x); l != nil {
+								loops = append(loops, l)
+							}
+						}
 					}
 					return true
 				})
-				for _, rs := range ranges {
-					keyID, _ := rs.Key.(*ast.Ident)
-					if keyID == nil || keyID.Name == "_" {
-						continue
-					}
-					keyObj := info.ObjectOf(keyID)
-					var valObj types.Object
-					if v, ok := rs.Value.(*ast.Ident); ok && v.Name != "_" {
-						valObj = info.ObjectOf(v)
-					}
-					keyDeps := fDependents(info, rs.Body, keyObj)
-					elemDeps := fDependents(info, rs.Body, keyObj, valObj)
+				for _, rs := range loops {
+					keyDeps := fDependents(info, rs.Body, rs.idx)
+					elemDeps := fDependents(info, rs.Body, rs.idx, rs.val)
 					for _, as := range fShrinks(info, rs, keyDeps) {
 						ord++
 						found++
@@ -326,13 +508,29 @@ func runShrinkInRange(c *Ctx) []Obligation {
 						if u.g == nil {
 							u.g = newCFG(info, u.body)
 						}
-						what := fmt.Sprintf("range over %s at %s: %s", types.ExprString(rs.X), c.Position(rs.Pos()), nodeText(c.Fset, as))
+						kind := "range over"
+						if rs.rs == nil {
+							kind = "index loop over"
+						}
+						what := fmt.Sprintf("%s %s at %s: %s", kind, types.ExprString(rs.X), c.Position(rs.Stmt.Pos()), nodeText(c.Fset, as))
 						loc, ok := findNode(u.g, as)
 						switch {
 						case !ok:
 							ob.Status, ob.Detail = Undecided, what+": assignment not found in the control-flow graph"
+						case rs.rs == nil:
+							w := fStepsPastSlid(c, info, u.g, rs, loc)
+							if w == nil {
+								ob.Status, ob.Detail = OK, what+": every path from the shrink steps the index back, tests the same position again or leaves the loop"
+							} else if g, ok := fInvariantGuard(info, u.g, rs, as, loc, elemDeps); ok {
+								ob.Status = OK
+								ob.Detail = what + " moves on to the next index, accepted: guarded by `" + g + "` against a loop-invariant value (fires at most once when keys are distinct)"
+							} else {
+								ob.Status = Violation
+								ob.Detail = what + " removes position " + rs.idx.Name() + " and then increments " + rs.idx.Name() + " (" + g + "): the element that slid into the freed position is never examined, so the second of two adjacent matches survives"
+								ob.Path = w
+							}
 						default:
-							w := fContinuesIterating(c, u.g, rs, loc)
+							w := fContinuesIterating(c, u.g, rs.rs, loc)
 							if w == nil {
 								ob.Status, ob.Detail = OK, what+" is followed by leaving the loop on every path"
 							} else if g, ok := fInvariantGuard(info, u.g, rs, as, loc, elemDeps); ok {
